@@ -5,6 +5,11 @@ import (
 	"bytes"
 	"encoding/binary"
 	"fmt"
+	"google.golang.org/protobuf/encoding/protowire"
+	"google.golang.org/protobuf/reflect/protodesc"
+	"google.golang.org/protobuf/reflect/protoregistry"
+	"google.golang.org/protobuf/types/descriptorpb"
+	"google.golang.org/protobuf/types/dynamicpb"
 	"hash/fnv"
 	"os"
 	"os/exec"
@@ -263,7 +268,7 @@ func enumerate(c *core.Ctx, digestOnly bool) [][]uint64 {
 }
 
 func run(c *core.Ctx) {
-	c.Rule = "messages = all slot lists of length <=k over (a) the map-entry / extension / unknown-record slots and (b) the thinned full alphabet of each type (generated and dynamicpb). For each: deterministic bytes must be identical across 12 repeated marshals, a Clone, three rebuilds, a decoded copy, EVERY permutation of the insertion/assignment order that cannot change content (<=3! orders), and a second process of the same binary (digest per enumeration index); messages with the same canonical content must have the same bytes; and all messages sharing deterministic bytes must be pairwise proto.Equal. distinct = distinct canonical contents"
+	c.Rule = "messages = all slot lists of length <=k over (a) the map-entry / extension / unknown-record slots and (b) the thinned full alphabet of each type (generated and dynamicpb). For each: deterministic bytes must be identical across 12 repeated marshals, a Clone, three rebuilds, a decoded copy, EVERY permutation of the insertion/assignment order that cannot change content (<=3! orders), and a second process of the same binary (digest per enumeration index); messages with the same canonical content must have the same bytes; and all messages sharing deterministic bytes must be pairwise proto.Equal. distinct = distinct canonical contents. Maps behind message-typed extensions: a message extension of type TestAllTypes (dynamic extension type over a protodesc-built file, because no linked schema has a map behind a message extension) on TestAllExtensions, holding a generated and a dynamicpb value with every map field filled with 8 entries in two insertion orders, singular and through a group-typed and a repeated message extension of the corpus: the parent's deterministic bytes must be tag + length + the deterministic bytes of the value, 12 times"
 	c.Exhaustive = true
 	// second process
 	self, _ := os.Executable()
@@ -284,6 +289,7 @@ func run(c *core.Ctx) {
 		}
 	}()
 	all := enumerate(c, false)
+	mapsBehindExtensions(c)
 	wg.Wait()
 	if cmdErr != nil {
 		fmt.Fprintln(os.Stderr, "C05: second process failed:", cmdErr)
@@ -335,4 +341,97 @@ func init() {
 			}
 		})
 	}
+}
+
+// mapsBehindExtensions: Deterministic must reach maps that sit behind a
+// message-typed extension value (the fast path hands such values to the public
+// API with converted options).
+func mapsBehindExtensions(c *core.Ctx) {
+	parent := univ.MT("goproto.proto.test.TestAllExtensions")
+	val := univ.MT("goproto.proto.test.TestAllTypes")
+	fdp := &descriptorpb.FileDescriptorProto{
+		Name: proto.String("verif/c05/ext.proto"), Package: proto.String("verif.c05"), Dependency: []string{"internal/testprotos/test/test.proto"},
+		Extension: []*descriptorpb.FieldDescriptorProto{
+			{Name: proto.String("all_types"), Number: proto.Int32(5000), Type: descriptorpb.FieldDescriptorProto_TYPE_MESSAGE.Enum(), Label: descriptorpb.FieldDescriptorProto_LABEL_OPTIONAL.Enum(), TypeName: proto.String(".goproto.proto.test.TestAllTypes"), Extendee: proto.String(".goproto.proto.test.TestAllExtensions"), JsonName: proto.String("allTypes")},
+			{Name: proto.String("all_types_rep"), Number: proto.Int32(5001), Type: descriptorpb.FieldDescriptorProto_TYPE_MESSAGE.Enum(), Label: descriptorpb.FieldDescriptorProto_LABEL_REPEATED.Enum(), TypeName: proto.String(".goproto.proto.test.TestAllTypes"), Extendee: proto.String(".goproto.proto.test.TestAllExtensions"), JsonName: proto.String("allTypesRep")},
+		},
+	}
+	fd, err := protodesc.NewFile(fdp, protoregistry.GlobalFiles)
+	if err != nil {
+		panic(err)
+	}
+	fill := func(m protoreflect.Message, reverse bool) {
+		fds := m.Descriptor().Fields()
+		for i := 0; i < fds.Len(); i++ {
+			f := fds.Get(i)
+			if !f.IsMap() || f.MapValue().Message() != nil {
+				continue
+			}
+			mp := m.Mutable(f).Map()
+			for e := 0; e < 8; e++ {
+				k := e
+				if reverse {
+					k = 7 - e
+				}
+				var key protoreflect.MapKey
+				switch f.MapKey().Kind() {
+				case protoreflect.BoolKind:
+					key = protoreflect.ValueOfBool(k%2 == 0).MapKey()
+				case protoreflect.StringKind:
+					key = protoreflect.ValueOfString(fmt.Sprintf("k%d", k)).MapKey()
+				case protoreflect.Int32Kind, protoreflect.Sint32Kind, protoreflect.Sfixed32Kind:
+					key = protoreflect.ValueOfInt32(int32(k - 3)).MapKey()
+				case protoreflect.Int64Kind, protoreflect.Sint64Kind, protoreflect.Sfixed64Kind:
+					key = protoreflect.ValueOfInt64(int64(k - 3)).MapKey()
+				case protoreflect.Uint32Kind, protoreflect.Fixed32Kind:
+					key = protoreflect.ValueOfUint32(uint32(k)).MapKey()
+				default:
+					key = protoreflect.ValueOfUint64(uint64(k)).MapKey()
+				}
+				mp.Set(key, f.MapValue().Default())
+				if f.MapValue().Kind() == protoreflect.EnumKind {
+					mp.Set(key, protoreflect.ValueOfEnum(f.MapValue().Enum().Values().Get(0).Number()))
+				}
+			}
+		}
+	}
+	n := 0
+	for xi := 0; xi < fd.Extensions().Len(); xi++ {
+		xt := dynamicpb.NewExtensionType(fd.Extensions().Get(xi))
+		for _, dynVal := range []bool{false, true} {
+			for _, reverse := range []bool{false, true} {
+				n++
+				name := fmt.Sprintf("extension=%s dynamic-value=%v reverse-insertion=%v", xt.TypeDescriptor().Name(), dynVal, reverse)
+				c.Eval(1)
+				c.Guard(func() string { return "maps behind a message extension " + name }, func() {
+					var v protoreflect.Message
+					if dynVal {
+						v = dynamicpb.NewMessage(val.Descriptor())
+					} else {
+						v = val.New()
+					}
+					fill(v, reverse)
+					want, err := proto.MarshalOptions{Deterministic: true, AllowPartial: true}.Marshal(v.Interface())
+					if err != nil {
+						panic(err)
+					}
+					p := parent.New()
+					if xt.TypeDescriptor().IsList() {
+						p.Mutable(xt.TypeDescriptor()).List().Append(protoreflect.ValueOfMessage(v))
+					} else {
+						p.Set(xt.TypeDescriptor(), protoreflect.ValueOfMessage(v))
+					}
+					expect := protowire.AppendBytes(protowire.AppendTag(nil, xt.TypeDescriptor().Number(), protowire.BytesType), want)
+					for r := 0; r < 12; r++ {
+						got, err := proto.MarshalOptions{Deterministic: true, AllowPartial: true}.Marshal(p.Interface())
+						if err != nil || !bytes.Equal(got, expect) {
+							c.Violation("deterministic marshal does not reach maps behind a message-typed extension: "+name, map[string]any{"err": fmt.Sprint(err), "repeat": r})
+							return
+						}
+					}
+				})
+			}
+		}
+	}
+	c.DistinctN(int64(n))
 }
